@@ -148,6 +148,25 @@ def srcP (pomdp : Bool) : P SrcP := do
     return ⟨⟨S, A, d, T, R⟩, O, om⟩
   else return ⟨⟨S, A, d, T, R⟩, 0, []⟩
 
+/-- `acc kb ko pomdp state | generic view` : the generic interface of an object returns what its tables hold
+    (`srcOf`: getTransitionProbability(s,a,s1) = T[a](s,s1), getExpectedReward(s,a,s1) = R(s,a), getObservationProbability(s1,a,o) = O[a](s1,o)) -/
+def accLine : P String := do
+  let kb ← rep; let ko ← rep; let pomdp ← P.bool
+  let st ← state; P.bar
+  let sp ← srcP pomdp; P.eof
+  let comp := (if pomdp then obsCls ko else baseCls kb)
+  let m := srcOf st
+  let v : Verdict := { tag := "acc" }
+  let v := v.failIf (sp.src.S != st.S || sp.src.A != st.A || (pomdp && sp.O != st.O)) s!"{comp}::getS sizes_disagree"
+  let v := v.failIf (!(xeq sp.src.disc st.disc)) s!"{comp}::getDiscount views_disagree"
+  let v := v.failIf (!(all3 st.S st.A st.S (fun s a s1 => xeq (get3 sp.src.T s a s1) (get3 m.T s a s1))))
+            s!"{baseCls kb}::getTransitionProbability accessor_disagrees_with_table"
+  let v := v.failIf (!(all3 st.S st.A st.S (fun s a s1 => xeq (get3 sp.src.R s a s1) (get3 m.R s a s1))))
+            s!"{baseCls kb}::getExpectedReward accessor_disagrees_with_table"
+  let v := v.failIf (pomdp && !(all3 st.S st.A st.O (fun s1 a o => xeq (get3 sp.om s1 a o) (get3 st.Om a s1 o))))
+            s!"{obsCls ko}::getObservationProbability accessor_disagrees_with_table"
+  return v.render
+
 /-- `ctor kb ko pomdp which args | err [state]` -/
 def ctorLine : P String := do
   let kb ← rep; let ko ← rep; let pomdp ← P.bool; let which ← P.tok
@@ -490,6 +509,7 @@ def handle (toks : List String) : String :=
   let r := match toks with
     | "op" :: rest => P.run opLine rest
     | "ctor" :: rest => P.run ctorLine rest
+    | "acc" :: rest => P.run accLine rest
     | "isprob" :: rest => P.run isprobLine rest
     | "disc" :: rest => P.run discLine rest
     | "amdp" :: rest => P.run amdpLine rest
